@@ -46,7 +46,8 @@ func init() {
 		{"C13", "gem", "C13Pair", "gem Compare gives the same sign as Gem::Version#<=>", "Go transliteration of Gem::Version canonical_segments and <=>, validated at dev time on 21 rows in the style of rubygems' test_gem_version.rb (0 mismatches); no ruby exists in this image",
 			func(tier string) []string {
 				return []string{"{d}", "{d}.{d}", "{d}.{d}.{d}", "{d}.{d}.{d}.{d}", "{d}.0", "{d}.{d}.0.0", "{d}.{d}.{l}{l}{d}", "{d}.{d}.{d}.{l}{l}{d}", "{d}.{d}.{l}", "{d}.{d}.{l}{l}", "{d}.{d}-{l}{l}", "{d}.{d}.{d}-{l}{l}{l}{l}{l}",
-					"{d}.{d}.{l}{d}", "{d}.{d}-{l}{l}.{d}", "{d}.{d}.{l}{l}{l}{l}.{l}", "{d}.{d}.{d}.{l}{l}{l}", "{d}.{d}-{d}", "{d}.0.{l}{l}{d}", "{d}{d}.{d}", "{d}.{d}.pre", "{d}.{d}.pre.{l}"}
+					"{d}.{d}.{l}{d}", "{d}.{d}-{l}{l}.{d}", "{d}.{d}.{l}{l}{l}{l}.{l}", "{d}.{d}.{d}.{l}{l}{l}", "{d}.{d}-{d}", "{d}.0.{l}{l}{d}", "{d}{d}.{d}", "{d}.{d}.pre", "{d}.{d}.pre.{l}",
+					"{d}.{d}.{l}{d}.{l}", "{d}.{l}{d}.{l}{d}", "{d}.{d}.{l}{d}.{l}{l}{d}"}
 			}},
 		{"C14", "alpine", "C14Pair", "alpine Compare gives the same sign as apk-tools on well-formed versions with equal component counts and no leading zeros", "Go transliteration of the rule list (numeric components, letter, suffix ranks with numbers, extra pre/post suffix, -rN), validated at dev time on the 288 well-formed rows of apk-tools' own version.data shipped in the repository (0 mismatches)",
 			func(tier string) []string {
